@@ -20,6 +20,10 @@ def stories():
             {"id": "every-failure-then-ok", "n": 4, "status": ["500", "hang", "reset", "300", "404"], "pushGap": [0, 30], "stopAtMs": 200, "final": "200", "drain": True},
             {"id": "never-ok", "n": 3, "status": [], "pushGap": [0], "stopAtMs": 300, "final": "500", "drain": False},
             {"id": "stop-during-hang", "n": 2, "status": ["hang", "hang", "hang", "hang"], "pushGap": [0], "stopAtMs": 60, "final": "200", "drain": False},
+            # an httpTimeout far beyond the stop bound: only Close (the stop request) can end the request the intake never answers
+            {"id": "stop-during-hang-long-timeout", "n": 2, "httpTimeoutMs": 6000, "status": ["hang"] * 4, "pushGap": [0], "stopAtMs": 60, "final": "200", "drain": False},
+            {"id": "stop-during-hang-after-success-long-timeout", "n": 4, "httpTimeoutMs": 6000, "status": ["200", "202", "hang", "hang"], "pushGap": [5], "stopAtMs": 120, "final": "200", "drain": False},
+            {"id": "stop-during-hang-after-failure-long-timeout", "n": 3, "httpTimeoutMs": 6000, "status": ["500", "reset", "hang", "hang"], "pushGap": [0], "stopAtMs": 300, "final": "200", "drain": False},
             {"id": "boundary-statuses", "n": 6, "status": ["299", "300", "200", "301", "202"], "pushGap": [10], "stopAtMs": 100, "final": "200", "drain": True}]
 
 
